@@ -235,23 +235,36 @@ def bisect (name : Nat → Bytes) (sha : Bytes) : Nat → Nat → Nat → Option
 
 namespace Idx
 
-/-- `FilePackIndex._object_offset(sha)` as coded: `start = fan[idx-1]` (0 for `idx = 0`),
-`end = fan[idx]`, bisect over `[start, end]` **inclusive** (`Gen.Pack.bisectInclusive = 1`,
-`Gen.Pack.lookupEndSlack = 0`), `KeyError` when nothing is found, else `_unpack_offset(i)`. -/
-def lookup (x : Idx) (sha : Bytes) : Except Err Nat :=
+/-- `FilePackIndex._object_offset(sha)`: `start = fan[idx-1]` (0 for `idx = 0`), `end = fan[idx]` (one
+past the group), then `bisect_find_sha(start, end - slack, …)` whose upper bound is inclusive
+(`Gen.Pack.bisectInclusive = 1`); `KeyError` when nothing is found, else `_unpack_offset(i)`.
+
+`slack` and `guard` describe the call site and come from the translator:
+  * `slack = 0, guard = 0`: the code up to the F3 repair — `bisect_find_sha(start, end, …)`, which can probe
+    index `end` itself (the next group's first name or, for the last group, the bytes after the name table);
+  * `slack = 1, guard = 1`: the repaired code — `if start == end: raise KeyError` and
+    `bisect_find_sha(start, end - 1, …)`. -/
+def lookupWith (slack guard : Nat) (x : Idx) (sha : Bytes) : Except Err Nat :=
   if sha.length ≠ x.hs then .error .other                       -- assert len(sha) == hash_size
   else
     let idx := firstByte sha
     match (if idx = 0 then some 0 else x.fan[idx - 1]?), x.fan[idx]? with
     | some start, some end_ =>
-      if start > end_ then                                        -- `assert start <= end` / `raise ValueError("start > end")`
-        (if Gen.Pack.bisectBadBoundsIsAssert = 1 then .error .other else .error .format)
+      let bad : Except Err Nat :=                                 -- `assert start <= end` / `raise ValueError("start > end")`
+        if Gen.Pack.bisectBadBoundsIsAssert = 1 then .error .other else .error .format
+      if start > end_ then bad
+      else if end_ < start + slack then                           -- the group is too small for `end - slack`
+        (if guard = 1 then .error .key else bad)                  -- `if start == end: raise KeyError(sha)`
       else
-        let hi := end_ + Gen.Pack.bisectInclusive - Gen.Pack.lookupEndSlack
+        let hi := end_ + Gen.Pack.bisectInclusive - slack
         match bisect x.nameAt sha (hi - start) start hi with
         | none => .error .key
         | some i => x.offsetAt i
     | _, _ => .error .other
+
+/-- `_object_offset` of the working tree. -/
+def lookup (x : Idx) (sha : Bytes) : Except Err Nat :=
+  lookupWith Gen.Pack.lookupEndSlack Gen.Pack.lookupEmptyGroupIsKeyError x sha
 
 /-- `iterentries()`. -/
 def entriesFrom (x : Idx) : Nat → Nat → Except Err (List (Bytes × Nat × Option Nat))
@@ -297,5 +310,20 @@ def v2File (H : Bytes → Bytes) (es : List IdxEntry) (cs : Bytes) : Bytes := v2
 table of cumulative bucket counts, `len = #entries`. -/
 def v2Idx (H : Bytes → Bytes) (es : List IdxEntry) (cs : Bytes) (hs : Nat) : Idx :=
   ⟨2, hs, v2File H es cs, (List.range' 0 256).map (cumul es), es.length, Gen.Pack.v2NameAt⟩
+
+/-- The complete file `write_pack_index_v3` writes for accepted SHA-1 input (`hash_format = 1`). -/
+def v3File (H : Bytes → Bytes) (es : List IdxEntry) (cs : Bytes) : Bytes :=
+  v3Body es cs Gen.Pack.v3FmtSha1 Gen.Pack.v3LenSha1 ++ H (v3Body es cs Gen.Pack.v3FmtSha1 Gen.Pack.v3LenSha1)
+
+/-- What `loadIndex 20 (v3File H es cs)` returns (`Lemmas.PackIndex.load_v3`). -/
+def v3Idx (H : Bytes → Bytes) (es : List IdxEntry) (cs : Bytes) : Idx :=
+  ⟨3, Gen.Pack.sha1Len, v3File H es cs, (List.range' 0 256).map (cumul es), es.length, Gen.Pack.v3NameAt⟩
+
+/-- The complete file `write_pack_index_v1` writes for accepted input. -/
+def v1File (H : Bytes → Bytes) (es : List IdxEntry) (cs : Bytes) : Bytes := v1Body es cs ++ H (v1Body es cs)
+
+/-- What `loadIndex 20 (v1File H es cs)` returns (`Lemmas.PackIndex.load_v1`). -/
+def v1Idx (H : Bytes → Bytes) (es : List IdxEntry) (cs : Bytes) : Idx :=
+  ⟨1, Gen.Pack.sha1Len, v1File H es cs, (List.range' 0 256).map (cumul es), es.length, 0⟩
 
 end Dulwich.PackIndex
